@@ -37,11 +37,18 @@ theorem gate_cases (s : St) :
     · next h1 => exact Or.inr (Or.inl ⟨h1, rfl⟩)
     · next h1 => exact Or.inr (Or.inr ⟨by omega, rfl⟩)
 
+theorem setHup_frame (s : St) (b : Bool) :
+    (setHup s b).k = s.k ∧ (setHup s b).closed = s.closed ∧ (setHup s b).re = s.re ∧ (setHup s b).ps = s.ps ∧
+    (setHup s b).task = s.task ∧ (setHup s b).overlap = s.overlap ∧ (setHup s b).hup = (s.hup || b) ∧
+    (setHup s b).sess = s.sess ∧ (setHup s b).opens = s.opens ∧ (setHup s b).dlv = s.dlv ∧ (setHup s b).sentS = s.sentS ∧
+    (setHup s b).sentD = s.sentD ∧ (setHup s b).deqD = s.deqD ∧ (setHup s b).lost = s.lost ∧ (setHup s b).cerr = s.cerr := by
+  unfold setHup; cases b <;> simp
+
 theorem dispatch_cases (g : Cfg) (s : St) (fl : Flags) :
     (fl.inn = true ∧ g.isAsync = false ∧ dispatch g s fl = setPs s (.rd 0 fl)) ∨
     (fl.inn = false ∧ dispatch g s fl = setPs s (afterEvent fl)) ∨
-    (fl.inn = true ∧ g.isAsync = true ∧ g.mode = .os ∧ dispatch g s fl = setPs (spawnTask s) (afterEvent fl)) ∨
-    (fl.inn = true ∧ g.isAsync = true ∧ g.mode = .et ∧ dispatch g s fl = setPs (gate s) (afterEvent fl)) := by
+    (fl.inn = true ∧ g.isAsync = true ∧ g.mode = .os ∧ dispatch g s fl = setPs (spawnTask (setHup s fl.hang)) .idle) ∨
+    (fl.inn = true ∧ g.isAsync = true ∧ g.mode = .et ∧ dispatch g s fl = setPs (gate (setHup s fl.hang)) .idle) := by
   unfold dispatch
   cases hi : fl.inn
   · exact Or.inr (Or.inl ⟨rfl, by simp⟩)
@@ -51,6 +58,9 @@ theorem dispatch_cases (g : Cfg) (s : St) (fl : Flags) :
       · simp [Cfg.isAsync, hm] at ha
       · exact Or.inr (Or.inr (Or.inr ⟨rfl, rfl, rfl, by simp⟩))
       · exact Or.inr (Or.inr (Or.inl ⟨rfl, rfl, rfl, by simp⟩))
+
+theorem psOk_idle (g : Cfg) : PsOk g .idle :=
+  ⟨fun _ i fl' => by simp, fun i fl' h' => by simp at h', fun _ fl' h' => by simp at h', fun _ _ fl' h' => by simp at h'⟩
 
 theorem psOk_after (g : Cfg) (fl : Flags) : PsOk g (afterEvent fl) := by
   unfold afterEvent
@@ -77,7 +87,7 @@ theorem core_report (g : Cfg) (s s' : St) (inn out : Bool) (h : Core g s)
   next hok =>
   obtain ⟨hps, hcl, hreg, hany, hin, hout, harm⟩ := reportOk_spec g s inn out hok
   cases hs
-  obtain ⟨hk, hg, hp, hl⟩ := h
+  obtain ⟨hk, hg, hp, hl, hh⟩ := h
   obtain ⟨d1, d2, d3, d4, d5, d6⟩ := disarm_frame g s.k
   have hfi : (flagsOf s inn out).inn = inn := rfl
   have hfe : (flagsOf s inn out).err = s.k.rerr := rfl
@@ -85,7 +95,7 @@ theorem core_report (g : Cfg) (s s' : St) (inn out : Bool) (h : Core g s)
   have hgate : ∀ t : St, t.task = s.task → t.re = s.re → t.closed = s.closed → t.overlap = s.overlap →
       g.isAsync = true → g.mode = .et →
       GateOk g (gate t).task (gate t).re (gate t).closed (gate t).overlap ∧
-      ((gate t).task = .queued ∨ (∃ v, (gate t).task = .dec v) ∨ ∃ a, (gate t).task = .rd a ∧ (gate t).re ≥ 2) := by
+      ((gate t).task = .queued ∨ (∃ v, (gate t).task = .dec v) ∨ ∃ a h, (gate t).task = .rd a h ∧ (gate t).re ≥ 2) := by
     intro t ht hre hc ho ha hm
     have hal := hg.alive hm hcl
     rcases gate_cases t with ⟨h2, e⟩ | ⟨h1, e⟩ | ⟨h0, e⟩
@@ -96,7 +106,7 @@ theorem core_report (g : Cfg) (s s' : St) (inn out : Bool) (h : Core g s)
       | none => exact absurd htk hne
       | queued => exact Or.inl rfl
       | dec v => exact Or.inr (Or.inl ⟨v, rfl⟩)
-      | rd a => exact Or.inr (Or.inr ⟨a, rfl, by omega⟩)
+      | rd a h => exact Or.inr (Or.inr ⟨a, h, rfl, by omega⟩)
     · rw [e]; simp only [ht, hc, ho]
       have hne : s.task ≠ .none := fun hn => by have := hal.mp hn; omega
       refine ⟨⟨by omega, fun h => by simp [hm] at h, fun h => by simp [ha] at h, hg.noClosedAns, fun _ _ => ?_, hg.noOverlap⟩, ?_⟩
@@ -107,37 +117,49 @@ theorem core_report (g : Cfg) (s s' : St) (inn out : Bool) (h : Core g s)
         | none => exact absurd htk hne
         | queued => exact Or.inl rfl
         | dec v => exact Or.inr (Or.inl ⟨v, rfl⟩)
-        | rd a => exact Or.inr (Or.inr ⟨a, rfl, by omega⟩)
+        | rd a h => exact Or.inr (Or.inr ⟨a, h, rfl, by omega⟩)
     · rw [e]
       have hn : s.task = .none := hal.mpr (by omega)
       refine ⟨?_, Or.inl rfl⟩
       simp only [spawnTask, ht, hc, ho]
       refine ⟨by omega, fun h => by simp [hm] at h, fun h => by simp [ha] at h, by simp, fun _ _ => by simp, ?_⟩
       simp [hn, hg.noOverlap]
-  refine ⟨?_, ?_, ?_, ?_⟩
+  -- the state handed to the gate / to the new task
+  obtain ⟨u1, u2, u3, u4, u5, u6, u7, _⟩ := setHup_frame (setK s (disarm g s.k)) (flagsOf s inn out).hang
+  have hbacked : (s.hup || (flagsOf s inn out).hang) = true → s.k.eof = true ∨ s.k.rerr = true := by
+    intro h
+    simp only [Bool.or_eq_true] at h
+    rcases h with h | h
+    · exact hh.backed h
+    · simp only [Flags.hang, flagsOf, Bool.or_eq_true, Bool.and_eq_true] at h
+      rcases h with ⟨_, h⟩ | h
+      · exact Or.inl h
+      · exact Or.inr h
+  refine ⟨?_, ?_, ?_, ?_, ?_⟩
   · -- KindOk: reg, rq, dq are not touched
     rcases dispatch_cases g (setK s (disarm g s.k)) (flagsOf s inn out) with ⟨_, _, e⟩ | ⟨_, e⟩ | ⟨_, _, _, e⟩ | ⟨_, _, _, e⟩
     · rw [e]; simp only [setPs, setK, d1, d2, d3]; exact hk
     · rw [e]; simp only [setPs, setK, d1, d2, d3]; exact hk
-    · rw [e]; simp only [setPs, setK, spawnTask, d1, d2, d3]; exact hk
+    · rw [e]; simp only [setPs, spawnTask]; rw [u1]; simp only [setK, d1, d2, d3]; exact hk
     · rw [e]
-      rcases gate_cases (setK s (disarm g s.k)) with ⟨_, e2⟩ | ⟨_, e2⟩ | ⟨_, e2⟩ <;> rw [e2] <;>
-        simp only [setPs, setK, spawnTask, d1, d2, d3] <;> exact hk
+      rcases gate_cases (setHup (setK s (disarm g s.k)) (flagsOf s inn out).hang) with ⟨_, e2⟩ | ⟨_, e2⟩ | ⟨_, e2⟩ <;> rw [e2] <;>
+        simp only [setPs, spawnTask] <;> rw [u1] <;> simp only [setK, d1, d2, d3] <;> exact hk
   · -- GateOk
     rcases dispatch_cases g (setK s (disarm g s.k)) (flagsOf s inn out) with ⟨_, _, e⟩ | ⟨_, e⟩ | ⟨_, ha, hm, e⟩ | ⟨_, ha, hm, e⟩
     · rw [e]; exact hg
     · rw [e]; exact hg
-    · rw [e]; simp only [setPs, setK, spawnTask]
+    · rw [e]; simp only [setPs, spawnTask]; rw [u3, u2, u6, u5]
       have hn : s.task = .none := hl.osArmed hm (harm hm)
       refine ⟨hg.re2, hg.osRe, fun h => by simp [ha] at h, by simp, fun h => by simp [hm] at h, ?_⟩
+      show (s.overlap || s.task != TS.none) = false
       simp [hn, hg.noOverlap]
-    · rw [e]; simp only [setPs]; exact (hgate (setK s (disarm g s.k)) rfl rfl rfl rfl ha hm).1
+    · rw [e]; simp only [setPs]; exact (hgate _ u5 u3 u2 u6 ha hm).1
   · -- PsOk
     rcases dispatch_cases g (setK s (disarm g s.k)) (flagsOf s inn out) with ⟨hi, ha, e⟩ | ⟨_, e⟩ | ⟨_, _, _, e⟩ | ⟨_, _, _, e⟩
     · rw [e]; exact psOk_rd0 g _ ha hi
     · rw [e]; exact psOk_after g _
-    · rw [e]; exact psOk_after g _
-    · rw [e]; exact psOk_after g _
+    · rw [e]; exact psOk_idle g
+    · rw [e]; exact psOk_idle g
   · -- LostOk
     cases hm : g.mode with
     | lt => exact ⟨fun h => by simp [hm] at h, fun h => by simp [hm] at h, fun h => by simp [hm] at h, fun h => by simp [hm] at h⟩
@@ -147,10 +169,10 @@ theorem core_report (g : Cfg) (s s' : St) (inn out : Bool) (h : Core g s)
         rcases dispatch_cases g (setK s (disarm g s.k)) (flagsOf s inn out) with ⟨_, _, e⟩ | ⟨_, e⟩ | ⟨_, _, _, e⟩ | ⟨_, _, _, e⟩
         · rw [e] at hq; simpa only [setPs, setK, d4] using hq
         · rw [e] at hq; simpa only [setPs, setK, d4] using hq
-        · rw [e] at hq; simpa only [setPs, setK, spawnTask, d4] using hq
+        · rw [e] at hq; simp only [setPs, spawnTask] at hq; rw [u1] at hq; simpa only [setK, d4] using hq
         · rw [e] at hq
-          rcases gate_cases (setK s (disarm g s.k)) with ⟨_, e2⟩ | ⟨_, e2⟩ | ⟨_, e2⟩ <;> rw [e2] at hq <;>
-            simpa only [setPs, setK, spawnTask, d4] using hq
+          rcases gate_cases (setHup (setK s (disarm g s.k)) (flagsOf s inn out).hang) with ⟨_, e2⟩ | ⟨_, e2⟩ | ⟨_, e2⟩ <;> rw [e2] at hq <;>
+            simp only [setPs, spawnTask] at hq <;> rw [u1] at hq <;> simpa only [setK, d4] using hq
       have hinn : inn = true := hin (Or.inl hq')
       rcases dispatch_cases g (setK s (disarm g s.k)) (flagsOf s inn out) with ⟨_, _, e⟩ | ⟨hi, e⟩ | ⟨_, _, hm', e⟩ | ⟨_, ha, _, e⟩
       · rw [e]; exact Or.inl ⟨0, _, rfl⟩
@@ -158,20 +180,18 @@ theorem core_report (g : Cfg) (s s' : St) (inn out : Bool) (h : Core g s)
       · rw [hm] at hm'; cases hm'
       · rw [e]
         simp only [setPs]
-        rcases (hgate (setK s (disarm g s.k)) rfl rfl rfl rfl ha hm).2 with h | h | ⟨a, h1, h2⟩
+        rcases (hgate _ u5 u3 u2 u6 ha hm).2 with h | h | ⟨a, hx, h1, h2⟩
         · exact Or.inr (Or.inr (Or.inl h))
         · exact Or.inr (Or.inr (Or.inr (Or.inl h)))
-        · exact Or.inr (Or.inr (Or.inr (Or.inr ⟨a, h1, Or.inr (Or.inr h2)⟩)))
+        · exact Or.inr (Or.inr (Or.inr (Or.inr ⟨a, hx, h1, Or.inr (Or.inr (Or.inl h2))⟩)))
     | os =>
       have hdm : (disarm g s.k).armed = false := by unfold disarm; rw [hm]
-      have harm' : ∀ t : St, t = dispatch g (setK s (disarm g s.k)) (flagsOf s inn out) → t.k.armed = false := by
-        intro t ht
+      have hA : (dispatch g (setK s (disarm g s.k)) (flagsOf s inn out)).k.armed = false := by
         rcases dispatch_cases g (setK s (disarm g s.k)) (flagsOf s inn out) with ⟨_, _, e⟩ | ⟨_, e⟩ | ⟨_, _, _, e⟩ | ⟨_, _, hm', e⟩
-        · rw [ht, e]; simpa only [setPs, setK] using hdm
-        · rw [ht, e]; simpa only [setPs, setK] using hdm
-        · rw [ht, e]; simpa only [setPs, setK, spawnTask] using hdm
+        · rw [e]; simpa only [setPs, setK] using hdm
+        · rw [e]; simpa only [setPs, setK] using hdm
+        · rw [e]; simp only [setPs, spawnTask]; rw [u1]; simpa only [setK] using hdm
         · rw [hm] at hm'; cases hm'
-      have hA := harm' _ rfl
       refine ⟨?_, fun _ _ _ => ?_, ?_, fun h => by simp [hm] at h⟩
       · intro _ h; rw [hA] at h; cases h
       rotate_left
@@ -185,10 +205,41 @@ theorem core_report (g : Cfg) (s s' : St) (inn out : Bool) (h : Core g s)
           · rw [hi] at h; cases h
           · have := hout h; rw [hm] at this; cases this
           · exact h
-        have hh : (flagsOf s inn out).hang = true := by simp [Flags.hang, hfe, herr]
-        refine Or.inr (Or.inl ⟨flagsOf s inn out, ?_, Or.inl hh⟩)
-        simp [afterEvent, hh]
+        have hh' : (flagsOf s inn out).hang = true := by simp [Flags.hang, hfe, herr]
+        refine Or.inr (Or.inl ⟨flagsOf s inn out, ?_, Or.inl hh'⟩)
+        simp [afterEvent, hh']
       · rw [e]; simp only [setPs, spawnTask]; exact Or.inr (Or.inr (Or.inl rfl))
       · rw [hm] at hm'; cases hm'
+  · -- HupOk
+    have hkeof : (setK s (disarm g s.k)).k.eof = s.k.eof := d5
+    have hkrerr : (setK s (disarm g s.k)).k.rerr = s.k.rerr := d6
+    rcases dispatch_cases g (setK s (disarm g s.k)) (flagsOf s inn out) with ⟨_, _, e⟩ | ⟨_, e⟩ | ⟨_, ha, hm, e⟩ | ⟨_, ha, hm, e⟩
+    · rw [e]; simp only [setPs, setK, d5, d6]; exact hh
+    · rw [e]; simp only [setPs, setK, d5, d6]; exact hh
+    · rw [e]; simp only [setPs, spawnTask]; rw [u7, u1, u3, u2, hkeof, hkrerr]
+      have k3 : ∀ a, TS.queued = .rd a true → (s.hup || (flagsOf s inn out).hang) = true := fun a h => by cases h
+      exact ⟨fun h => (by simp [ha] at h), hbacked, k3, fun _ _ => Or.inl rfl⟩
+    · rw [e]; simp only [setPs]
+      obtain ⟨hg1, hg2⟩ := hgate _ u5 u3 u2 u6 ha hm
+      generalize ht0 : setHup (setK s (disarm g s.k)) (flagsOf s inn out).hang = t0 at hg1 hg2 u1 u2 u3 u4 u5 u6 u7
+      have gk : (gate t0).k = t0.k ∧ (gate t0).hup = t0.hup ∧ (gate t0).closed = t0.closed ∧
+          ((gate t0).task = t0.task ∨ (gate t0).task = .queued) := by
+        rcases gate_cases t0 with ⟨_, e2⟩ | ⟨_, e2⟩ | ⟨_, e2⟩ <;> rw [e2]
+        · exact ⟨rfl, rfl, rfl, Or.inl rfl⟩
+        · exact ⟨rfl, rfl, rfl, Or.inl rfl⟩
+        · exact ⟨rfl, rfl, rfl, Or.inr rfl⟩
+      obtain ⟨g1, g2, g3, g4⟩ := gk
+      rw [g1, g2, g3, u1, u7, u2, hkeof, hkrerr]
+      refine ⟨fun h => (by simp [ha] at h), hbacked, fun a h => ?_, fun _ _ => ?_⟩
+      · rcases g4 with g4 | g4
+        · rw [g4, u5] at h
+          have : s.hup = true := hh.flag a h
+          show ((setK s (disarm g s.k)).hup || (flagsOf s inn out).hang) = true
+          simp [setK, this]
+        · rw [g4] at h; cases h
+      · rcases hg2 with h | h | ⟨a, hx, h1, h2⟩
+        · exact Or.inl h
+        · exact Or.inr (Or.inl h)
+        · exact Or.inr (Or.inr ⟨a, hx, h1, Or.inr h2⟩)
 
 end ReadPath
